@@ -20,7 +20,7 @@ MANIFEST = {
     'technique': 'runtime monitoring: exhaustive short-string sweep per site with reference normaliser, round-trip differential and DDL string-token scan',
 }
 LEVEL = 'exploration'
-BUDGET = {'quick': 50, 'thorough': 420}
+BUDGET = {'quick': 120, 'thorough': 420}
 RULE = ('(site, text, sub-check); texts enumerated exhaustively to the stated length plus seeded long texts; a case = one text at '
         'one site through one sub-check; distinct by (site, text, sub-check); non-trivial = text is not empty')
 ASSUMPTIONS = ['pv/surface.py writes literals that denote exactly the intended text (escaping of backslash and the quote in use)',
